@@ -118,6 +118,29 @@ def _buf9(x):           # the negative of a buffer is taken, the buffer overwrit
     return z * b
 
 
+def _buf11(x):          # one value is written into several slots at once (the right-hand side is broadcast), then used
+    b = A.zeros(4, dtype=x)
+    b[0:2] = x[0] * x[1]
+    b[2:] = A.sin(x[2])
+    return b * np.array([1.0, -2.0, 0.5, 3.0]) + b * b * x[1]
+
+
+def _buf12(x):          # a row is written into every row of a block; a column vector into every column
+    B = A.zeros((3, 3), dtype=x)
+    B[0:2, :] = x * x
+    B[2, :] = x
+    C = A.zeros((3, 2), dtype=x)
+    C[...] = A.reshape(A.exp(0.3 * x), (3, 1))
+    return A.dot(B, C) * np.array([[1.0, -1.5], [0.5, 2.0], [-0.7, 0.3]])
+
+
+def _buf13(x):          # a polynomial with a leading axis of length 1 is written into a longer slice
+    b = A.zeros((2, 3), dtype=x)
+    b[:, :] = A.reshape(x * 1.5, (1, 3))
+    b[1, 1:] = x[0]
+    return A.sum(b * b * np.array([[1.0, 2.0, -1.0], [0.5, -0.5, 3.0]]), axis=0)
+
+
 def _buf3(x):           # 2-D buffer, slices, column overwritten from other columns
     B = A.zeros((2, 3), dtype=x)
     B[0, :] = x
@@ -230,6 +253,9 @@ def catalogue():
     add('buffer:write_into_algebraic_identity_result', _buf8, [(V, 'R')], ['buffer', 'overwrite'])
     add('buffer:negated_twice_around_overwrite', _buf9, [(V, 'R')], ['buffer', 'overwrite'])
     add('buffer:zero_plus_value_is_a_new_value', _buf10, [(V, 'R')], ['buffer', 'overwrite'])
+    add('buffer:one_value_into_several_slots', _buf11, [(V, 'R')], ['buffer'])
+    add('buffer:row_into_block', _buf12, [(V, 'R')], ['buffer'])
+    add('buffer:leading_axis_of_length_one_into_rows', _buf13, [(V, 'R')], ['buffer', 'overwrite'])
     add('buffer:constant_overwrites_active_entry', _buf6, [(V, 'R')], ['buffer', 'overwrite', 'const'])
     add('buffer:constant_array_overwrites_slice', _buf7, [(V, 'R')], ['buffer', 'overwrite', 'const'])
     # --- reductions
